@@ -32,6 +32,7 @@ ASSUMPTIONS = [
 BOUND = {"quick": "4 contents x 2 modes (0644, 0444; thorough: 4) x 2 suffixes x {1,2} files x every op index x (4 errnos + 2 crash points) + power-loss prefixes x 3", "thorough": "same"}
 FLOOR = {"quick": 1000, "thorough": 1000}
 CHUNK = 1
+TIMEOUT = 900  # per case; fresh child processes are slow when the machine is loaded
 
 CONTENTS = {
     "ascii": ("utf-8", b"SELECT a  FROM t\n"),
@@ -70,6 +71,9 @@ class Plan:
             os._exit(137)
         if hit and self.kind == "fail":
             raise OSError(self.err, os.strerror(self.err) + " (injected)")
+        if hit and self.kind == "interrupt":
+            # a signal-delivered exception: Ctrl-C (KeyboardInterrupt) or a SIGTERM handler calling sys.exit
+            raise (KeyboardInterrupt() if self.err == 0 else SystemExit(1))
         r = fn(*a, **k)
         if hit and self.kind == "die_after":
             os._exit(137)
@@ -364,7 +368,12 @@ def run_case(case):
             fname = names[file_no]
             target = fname if not case["suffix"] else fname.replace(".sql", case["suffix"] + ".sql")
             for idx in range(len(oplog)):
-                plans = [("fail", idx, e, file_no) for e in ERRNOS] + [("die_before", idx, 0, file_no), ("die_after", idx, 0, file_no)]
+                plans = (
+                    [("fail", idx, e, file_no) for e in ERRNOS]
+                    # interrupted here by KeyboardInterrupt (err=0) / SystemExit (err=1): still a failed write
+                    + [("interrupt", idx, 0, file_no), ("interrupt", idx, 1, file_no)]
+                    + [("die_before", idx, 0, file_no), ("die_after", idx, 0, file_no)]
+                )
                 for plan in plans:
                     res["n"] += 1
                     tag = "f%d_%d_%s_%d" % (file_no, idx, plan[0], plan[2])
@@ -386,7 +395,9 @@ def run_case(case):
                     # original with suffix untouched
                     if case["suffix"] and (fname not in snap2 or snap2[fname][0] != raw):
                         add("original_touched_with_suffix", feats, {})
-                    if plan[0] == "fail":
+                    if plan[0] in ("fail", "interrupt"):
+                        if plan[0] == "interrupt":
+                            feats["errno"] = "KeyboardInterrupt" if plan[2] == 0 else "SystemExit"
                         if out2 is None or out2.get("exc") is None:
                             if oplog[idx] not in ("exists", "remove"):
                                 add("injected_error_swallowed", feats, {"out": str(out2)[:200]})
